@@ -31,11 +31,13 @@ def demo(sid):
             return {"error": "demo does not compile (%s): %s" % (label, r.stderr[-400:])}
         try:
             r = sh([exe], timeout=300, cwd=W)
-            out[label] = {"exit": r.returncode, "first_line": (r.stdout.strip().splitlines() or [""])[0][:300]}
+            lines = r.stdout.strip().splitlines() or [""]
+            viol = [l for l in lines if "PROPERTY VIOLATED" in l]
+            out[label] = {"exit": r.returncode, "first_line": (viol[0] if viol else lines[0])[:300], "violation_lines": len(viol)}
         except subprocess.TimeoutExpired:
             out[label] = {"exit": "timeout", "first_line": ""}
     sh(["git", "-C", WT, "checkout", "--", "."])
-    out["ok"] = out["changed"]["exit"] == 1 and "PROPERTY VIOLATED" in out["changed"]["first_line"] and out["unchanged"]["exit"] == 0
+    out["ok"] = out["changed"]["exit"] == 1 and out["changed"].get("violation_lines", 0) > 0 and out["unchanged"]["exit"] == 0 and out["unchanged"].get("violation_lines", 0) == 0
     return out
 
 
@@ -76,6 +78,13 @@ def main():
         metas[sid]["confirmed"]["demo"] = dr
         metas[sid]["confirmed"]["demo_fails_on_changed_passes_on_unchanged"] = bool(dr.get("ok"))
         print(sid, "demo", "ok" if dr.get("ok") else dr, flush=True)
+
+    if "--demo-only" in args:
+        for sid in ids:
+            json.dump(metas[sid], open(os.path.join(S, sid, "meta.json"), "w"), indent=1)
+        sh(["git", "-C", "/repo", "worktree", "remove", "--force", WT])
+        shutil.rmtree(W, ignore_errors=True)
+        return
 
     def confirm(batch):
         ok, msg = suite(batch, jobs)
